@@ -259,8 +259,11 @@ func c16FirstContact(r *fw.Run, reps int, rng *rand.Rand) {
 		`{"method":"org.example.script.M","parameters":{"id":"f","steps":[{"op":"reply"}]}}`,
 		`{"method":"org.example.nosuch.M"}`,
 		`{"method":"org.example.script.Nosuch"}`,
+		`{"method":"org.example.script.M","parameters":{"id":"b","steps":[{"op":"badreply"},{"op":"reply"}]}}`,
+		`{"method":"org.example.script.M","more":true,"parameters":{"id":"c","steps":[{"op":"reply","cont":true},{"op":"badreply"},{"op":"reply"}]}}`,
 	}
 	for k := 0; k < reps; k++ {
+		r.Journal(9, map[string]interface{}{"what": "first contact", "round": k})
 		svc, err := varlink.NewService("Verif", "First", "1", "u")
 		if err != nil {
 			return
@@ -271,14 +274,19 @@ func c16FirstContact(r *fw.Run, reps int, rng *rand.Rand) {
 		p := filepath.Join(r.WorkDir, fmt.Sprintf("fc%d", r.Seq()))
 		ctx, cancel := context.WithCancel(context.Background())
 		done := make(chan error, 1)
+		// half of the rounds serve with a short idle timeout and end by letting it expire after the connections have gone
+		to := time.Duration(0)
+		if k%4 >= 2 {
+			to = 60 * time.Millisecond
+		}
 		if k%2 == 0 {
-			go func() { done <- svc.Listen(ctx, "unix:"+p, 0) }()
+			go func() { done <- svc.Listen(ctx, "unix:"+p, to) }()
 		} else {
 			if err := svc.Bind(ctx, "unix:"+p); err != nil {
 				cancel()
 				continue
 			}
-			go func() { done <- svc.DoListen(ctx, 0) }()
+			go func() { done <- svc.DoListen(ctx, to) }()
 		}
 		n := 2 + rng.Intn(5)
 		conns := make([]net.Conn, 0, n)
@@ -299,7 +307,7 @@ func c16FirstContact(r *fw.Run, reps int, rng *rand.Rand) {
 				defer wg.Done()
 				<-gate
 				c.SetDeadline(time.Now().Add(10 * time.Second))
-				for j := 0; j < 3; j++ {
+				for j := 0; j < 8; j++ {
 					f := frames[(i+j)%len(frames)]
 					if same && j == 0 {
 						f = frames[k/3%len(frames)]
@@ -322,6 +330,16 @@ func c16FirstContact(r *fw.Run, reps int, rng *rand.Rand) {
 		for _, c := range conns {
 			c.Close()
 		}
+		if to != 0 {
+			select {
+			case err := <-done:
+				done <- err
+				if _, ok := err.(varlink.ServiceTimeoutError); ok {
+					r.Count("first_contact_rounds_ended_by_idle_timeout", 1)
+				}
+			case <-time.After(5 * time.Second):
+			}
+		}
 		svc.Shutdown()
 		select {
 		case <-done:
@@ -331,6 +349,7 @@ func c16FirstContact(r *fw.Run, reps int, rng *rand.Rand) {
 		r.Count("first_contact_rounds", 1)
 		r.Count("first_contact_connections", int64(len(conns)))
 	}
+	r.Done(9)
 }
 
 func c16Duplex(r *fw.Run, reps int) {
@@ -436,12 +455,18 @@ func runC16(r *fw.Run) {
 	r.Count("repetitions_per_tuple", int64(reps))
 	// client connections and raw connections under cancellation, buffers reused by the caller
 	for _, tr := range []string{"pipe", "unix", "tcp", "client-unix", "bridge"} {
+		r.Journal(9, map[string]interface{}{"what": "client connection under cancellation", "transport": tr})
 		c16Client(r, tr, r.Pick(8, 60), rng)
+		r.Done(9)
 	}
+	r.Journal(9, map[string]interface{}{"what": "duplex handler"})
 	c16Duplex(r, r.Pick(30, 300))
+	r.Done(9)
 	c16FirstContact(r, r.Pick(60, 600), rng)
 	// handler I/O under cancellation, per-connection reads under a cancelled serving context
 	scratch := fw.NewRun(r.Tier, r.Seed, r.WorkDir, r.Repo)
+	r.Journal(9, map[string]interface{}{"what": "re-run of the C17 service side, the C01 rounds (and in the thorough tier C14 epochs, C17 matrix) in the race build"})
+	defer r.Done(9)
 	for k := 0; k < r.Pick(2, 8); k++ {
 		c17Service(scratch, "unix", k%2 == 0)
 		r.Count("handler_io_cancellations", 1)
@@ -493,7 +518,7 @@ func replayC16(r *fw.Run, raw json.RawMessage) {
 func init() {
 	fw.Register(&fw.Engine{
 		ID: "C16", Level: "exploration", Race: true,
-		Rule: "race-detector build of the driver. Every pair (thorough: and triple) of {Shutdown, GetListener x20, RegisterInterface with a new name, RegisterInterface with a registered name, client connect + GetInfo + GetInterfaceDescription, client more-call with 3 replies, client abort mid-frame, cancel of the serving context} is started concurrently - seeded start offsets 0..2 ms - against a Listen or Bind+DoListen that is known to be serving (completed round trip) and holds one idle connection; 6 (thorough 40) repetitions per tuple and entry point. Then: connections used by one goroutine at a time (in-memory pipe, unix, TCP, real Connection, bridge) with cancelled and timed-out Read/ReadBytes/Write/Call, the caller overwriting its buffers as soon as each call has returned; handlers blocked in Call.Conn I/O while the serving context is cancelled; the concurrent-connection workload of C01 (thorough: also the real-socket epochs of C14 and the C17 matrix). Oracle: the Go race detector (GORACE halt_on_error=0, log files); a report counts if any of its stacks has a frame in github.com/varlink/go; reports are de-duplicated by the pair of first library frames. evaluations = tuples x repetitions; distinct by (tuple, entry point, offsets); evidence also counts the distinct begin/end orders observed per tuple. A third of the tuples serve with an (hour long) idle timeout; four triples around Shutdown + RegisterInterface + client call are part of the quick tier; an upgraded handler reads and writes its connection from two goroutines while the peer half-closes and then goes away; fresh services (readiness = bare connect, nothing answered yet) get their first calls from 2-6 connections released at the same instant.",
+		Rule: "race-detector build of the driver. Every pair (thorough: and triple) of {Shutdown, GetListener x20, RegisterInterface with a new name, RegisterInterface with a registered name, client connect + GetInfo + GetInterfaceDescription, client more-call with 3 replies, client abort mid-frame, cancel of the serving context} is started concurrently - seeded start offsets 0..2 ms - against a Listen or Bind+DoListen that is known to be serving (completed round trip) and holds one idle connection; 6 (thorough 40) repetitions per tuple and entry point. Then: connections used by one goroutine at a time (in-memory pipe, unix, TCP, real Connection, bridge) with cancelled and timed-out Read/ReadBytes/Write/Call, the caller overwriting its buffers as soon as each call has returned; handlers blocked in Call.Conn I/O while the serving context is cancelled; the concurrent-connection workload of C01 (thorough: also the real-socket epochs of C14 and the C17 matrix). Oracle: the Go race detector (GORACE halt_on_error=0, log files); a report counts if any of its stacks has a frame in github.com/varlink/go; reports are de-duplicated by the pair of first library frames. evaluations = tuples x repetitions; distinct by (tuple, entry point, offsets); evidence also counts the distinct begin/end orders observed per tuple. A third of the tuples serve with an (hour long) idle timeout; four triples around Shutdown + RegisterInterface + client call are part of the quick tier; an upgraded handler reads and writes its connection from two goroutines while the peer half-closes and then goes away; fresh services (readiness = bare connect, nothing answered yet) get their first calls from 2-6 connections released at the same instant (8 calls each, among them handlers whose reply value cannot be encoded); half of these services run with a 60 ms idle timeout and stop by its expiry once the connections have gone.",
 		Assumptions: []string{"the race detector reports only races between accesses that both executed in this run", "reports without any library frame are harness-only and listed as notes"},
 		Run:         runC16, Replay: replayC16, CrashIsViolation: false, MinEvals: 20,
 		QuickTimeout: 20 * time.Minute, ThoroughTimeout: 90 * time.Minute,
